@@ -213,6 +213,9 @@ func (ex *Exec) callModular(fi *FuncInfo, recv *Value, args []Value, st *State, 
 		st.assumeValid(v)
 		res = append(res, v)
 	}
+	if con.readsClock {
+		ex.advanceClock(st)
+	}
 	if con.allocates {
 		na := freshVar("alloc", sortMath)
 		st.assume(mkCmp("le", st.alloc, na))
@@ -369,9 +372,13 @@ func (ex *Exec) modLoc(e ast.Expr, st *State) []modLoc {
 			prefix += s.field
 		}
 	}
+	var extra []modLoc
+	if _, isMap := lv.typ().Underlying().(*types.Map); isMap && lv.kind != lvMapElem {
+		extra = append(extra, modLoc{kind: "map", t: lv.typ()})
+	}
 	switch lv.kind {
 	case lvObj:
-		return []modLoc{{kind: "obj", t: lv.rootT, ref: lv.ref, prefix: prefix}}
+		return append([]modLoc{{kind: "obj", t: lv.rootT, ref: lv.ref, prefix: prefix}}, extra...)
 	case lvElem:
 		return []modLoc{{kind: "region", t: lv.rootT, ref: lv.ref}}
 	case lvGlobal:
@@ -394,6 +401,14 @@ func (ex *Exec) topFrameLocs(st *State) ([]modLoc, bool) {
 		f0.modLocs = []modLoc{}
 		for _, m := range f0.fn.Con.Modifies {
 			f0.modLocs = append(f0.modLocs, ex.modLocs(f0.fn, m, f0.oldSt, f0.bind)...)
+		}
+		// ghost state may always be written
+		for _, g := range f0.fn.Con.Ghosts {
+			if gv, ok := f0.bind[g.Name]; ok {
+				if sl, ok := gv.T.Underlying().(*types.Slice); ok {
+					f0.modLocs = append(f0.modLocs, modLoc{kind: "region", t: sl.Elem(), ref: gv.L[".ref"]})
+				}
+			}
 		}
 	}
 	return f0.modLocs, true
@@ -957,4 +972,61 @@ func dropNewBindings(st *State, before map[types.Object]bool) {
 			delete(st.env, k)
 		}
 	}
+}
+
+// callCallback: a call of a function-typed parameter that carries a callback contract.
+func (ex *Exec) callCallback(id *ast.Ident, sig *types.Signature, args []Value, st *State, call *ast.CallExpr) ([]Value, bool) {
+	f := ex.frame()
+	if f.fn == nil || f.fn.Con == nil {
+		return nil, false
+	}
+	cbs := f.fn.Con.Callbacks[id.Name]
+	if len(cbs) == 0 {
+		return nil, false
+	}
+	bind := map[string]Value{}
+	f0 := ex.frames[0]
+	if f0.fn == f.fn {
+		for n, v := range f0.bind {
+			bind[n] = v
+		}
+	}
+	// ghost parameters and current parameter values
+	for n, v := range f.entry {
+		bind[n] = v
+	}
+	for i := 0; i < sig.Params().Len(); i++ {
+		if n := sig.Params().At(i).Name(); n != "" {
+			bind[n] = args[i]
+		}
+	}
+	pre := st.clone()
+	k := 0
+	for _, c := range cbs {
+		if c.Kind == "cb-requires" {
+			g := ex.evalClause(c, st, pre, bind)
+			ex.check(st, g, "callback-requires", call, fmt.Sprintf("callback:%s/requires#%d", id.Name, k))
+			k++
+		}
+	}
+	for _, c := range cbs {
+		if c.Kind == "cb-modifies" {
+			ex.havocModifies(f.fn, c, st, pre, bind, call)
+		}
+	}
+	var res []Value
+	for i := 0; i < sig.Results().Len(); i++ {
+		v := freshValue("cb!"+id.Name, sig.Results().At(i).Type())
+		st.assumeValid(v)
+		res = append(res, v)
+	}
+	ex.assuming++
+	for _, c := range cbs {
+		if c.Kind == "cb-ensures" {
+			st.assume(ex.evalClause(c, st, pre, bind))
+		}
+	}
+	ex.assuming--
+	ex.note("callback " + id.Name + " of " + f.fn.Short + ": assumed to satisfy its callback contract (checked against the closures passed at call sites only when the callee is inlined there)")
+	return res, true
 }
